@@ -413,3 +413,39 @@ impl<B: Region> BlockPool<B> {
         }
     }
 }
+
+/// Hooks for the external verification harnesses (see `crate::verif_hooks`): a public handle on the private
+/// `BlockQueue` whose methods forward one call each.
+#[cfg(any(kani, mmtk_verif))]
+pub mod verif_hooks {
+    pub use super::BlockPool;
+    use super::*;
+    pub struct Queue<B: Region>(BlockQueue<B>);
+    impl<B: Region> Queue<B> {
+        pub const CAPACITY: usize = BlockQueue::<B>::CAPACITY;
+        #[allow(clippy::new_without_default)]
+        pub fn new() -> Self {
+            Queue(BlockQueue::new())
+        }
+        /// # Safety
+        /// Single-threaded use only (as `BlockQueue::push_relaxed`).
+        pub unsafe fn push_relaxed(&self, block: B) -> Result<(), B> {
+            self.0.push_relaxed(block)
+        }
+        pub fn pop(&self) -> Option<B> {
+            self.0.pop()
+        }
+        pub fn len(&self) -> usize {
+            self.0.len()
+        }
+        pub fn is_empty(&self) -> bool {
+            self.0.is_empty()
+        }
+        pub fn iterate_blocks(&self, f: &mut impl FnMut(B)) {
+            self.0.iterate_blocks(f)
+        }
+        pub fn replace(&self, new_array: Self) -> Self {
+            Queue(self.0.replace(new_array.0))
+        }
+    }
+}
